@@ -45,6 +45,21 @@ CLAIMS = {
         note="trusts clang AST/CFG; boost::lexical_cast converts every representable value; interaction of arbitrary "
              "checks/formats/constraints is not decided", also=("engine B (boolshape.py)",),
         technique="static analysis: CFG loop-exit shape rule + exhaustive truth tables over orderings"),
+    "C04": dict(
+        level="other", engine="engine C (lin.py, bounds.py)",
+        text="Memory-safety clauses that are visible in the code shape, decided for all inputs: Engine C proves the "
+             "capacity of every strcpy destination in the library (program-name copies, generated argv words), every "
+             "index into the generated argv array (range-for with ghost iteration counter and lock-step argc) and "
+             "every write into fixed-size destinations (T[N], std::array, std::bitset, vector<bool> incl. growth and "
+             "max_size guard); AST rules decide new[]/delete[]/unique_ptr form agreement; a call-graph rule shows "
+             "that only std::exception-derived types are thrown from the evaluation entry points, no re-throw "
+             "outside a handler, no throw in noexcept functions (positive control analysed on every run). The bounds "
+             "of the ArgListIterator cursor and termination are NOT decided (needs relational invariants across "
+             "calls that the engine does not infer).",
+        note="trusted base: clang front end, extractor, cv/lin.py + cv/bounds.py and its models of "
+             "strlen/strcpy/new[]/std::vector; argv[0] is NUL-terminated; ArgListIterator not covered",
+        also=("engine A (cfg.py)",),
+        technique="static analysis: relational abstract interpretation for buffer capacities + AST/call-graph rules"),
     "C05": dict(
         level="other", engine="engine A (cfg.py)",
         text="Add-time refusal and lookup structure decided on the CFG of every Storage<>::addArgument instantiation "
